@@ -2,6 +2,8 @@
 from props import _gencommon as G
 import common as C
 ID = "C15"
+# files this check also depends on (the quick tier runs at the thorough sizes when one of them differs from the fingerprinted tree)
+EXTRA_FILES = ['src/tool.rs']
 COQ_TARGETS = ["Gen/Forward.vo", "Proofs/JacobianFD.vo", "Exec/JacUse.vo", "Properties/C15.vo"]
 THEOREMS = ["C15_position_column", "C15_position_column_base", "C15_rotation_column", "C15_fd_bound",
             "C15_torques_virtual_work", "C15_torques_unit_row", "C15_torques_linear", "C15_velocities_reproduce", "C15_velocities_error_iff",
